@@ -138,6 +138,12 @@ type IncludeIfExists struct {
 	Ctx  Expr
 }
 
+// IssetChain is isset(<E>.zzq): E is evaluated (with its side effects); whatever happens - E fails half-way, E has no
+// such member - the result is false and the interpreter state is what it was before.
+type IssetChain struct{ E Expr }
+
+func (e IssetChain) src() string { return "isset(" + e.E.src() + ".zzq)" }
+
 // Opaque is an expression the model does not interpret: its source and its outcome are given.
 type Opaque struct {
 	Src   string
